@@ -26,3 +26,5 @@ def check(repo, rep, tier):
     rep.run(rx.rule_state_on_engine_only, em, rep, 'C04.I9')
     fr = rs.Freshness(em)
     rep.run(rs.rule_fresh_per_use, em, rep, 'C04.I10', fr)
+    # a stored fact shares no variable with the clause (or engine) that asserted it
+    rep.run(rs.rule_store_snapshot, em, rep, 'C04.I11', fr)
